@@ -44,6 +44,9 @@ type c06Replay struct {
 	Mode     string `json:"mode,omitempty"`
 	Variant  string `json:"variant,omitempty"`
 	Adaptive bool   `json:"adaptive,omitempty"`
+	// Wire: delivery mode (pump.go Sim.Wire): every envelope is encoded with Message.MarshalBinary and decoded with
+	// UnmarshalBinary into a fresh Message before Accept, as a real transport does; false = the Message object is handed over
+	Wire bool `json:"wire,omitempty"`
 }
 
 // c06Det: the deterministic reader of one run. mux = the run executes in parallel with others (pump.go muxReader); otherwise
@@ -150,6 +153,7 @@ type c06Job struct {
 	mode  c06Mode
 	mux   bool
 	sh    shapeInfo // round table of the session (reference run): the system model runs on it (pump_sys.go)
+	wire  bool      // delivery through the wire format (Sim.Wire)
 }
 
 type c06Viol struct {
@@ -310,6 +314,7 @@ func c06Exec(j c06Job) *c06Out {
 	} else {
 		s, _ = buildTwoFaced(sp, seed, E, g1, k, det)
 	}
+	s.Wire = j.wire
 	twoInst := mode.Name != "reencode" && mode.Name != "directed-same"
 	if twoInst && k == 2 {
 		// first message round: instance 2 must differ from the start -> rebuild it with a forked stream
@@ -372,6 +377,9 @@ func c06Exec(j c06Job) *c06Out {
 	if mode.Name == "" {
 		o.sysKey = fmt.Sprintf("%s/round%d/fork", sp.Name, k)
 	}
+	if j.wire {
+		o.sysKey += "/wire"
+	}
 	for i, id := range s.IDs {
 		if r, _ := resultOf(s.Nodes[id]); r != nil && o.sys != nil {
 			o.sys.Results[i] = c06PublicFP(r)
@@ -403,6 +411,15 @@ func c06Exec(j c06Job) *c06Out {
 	}
 	key := fmt.Sprintf("C06/%s/round%d", sp.Name, k)
 	class := fmt.Sprintf("%s/round%d", sp.Name, k)
+	if j.wire {
+		// the same case with every envelope crossing Message.MarshalBinary / UnmarshalBinary (oracles unchanged)
+		rp.Wire = true
+		key += "/wire"
+		class += "/wire"
+		if s.WireFail > 0 {
+			o.notes = append(o.notes, fmt.Sprintf("C06 %s round %d %s wire delivery: %d envelopes did not cross the wire format and were handed over in memory: %v", sp.Name, k, mode, s.WireFail, s.Trace))
+		}
+	}
 	// did the two groups really receive different, individually valid round-k broadcasts?
 	var b1, b2 []byte
 	equivocated := false
@@ -502,6 +519,9 @@ func c06Exec(j c06Job) *c06Out {
 	}
 	o.class = fmt.Sprintf("%s/equivocated=%v", class, equivocated)
 	o.fp = fmt.Sprintf("%s/%s/%d/%v/%s/%d/%s", sp.Name, E, k, G1, j.pol, seed, mode)
+	if j.wire {
+		o.fp += "/wire"
+	}
 	o.equivocated, o.rp = equivocated, rp
 	if !equivocated {
 		return o
@@ -648,7 +668,8 @@ func runC06(c *ctx) {
 		"(fork) two-faced party = two honest instances diverging at round k; (reencode) one instance whose round-k broadcast reaches group 2 in another, equally decodable CBOR encoding " +
 		"(plain, and adaptive: the equivocator echoes the recipient's own view digest); (resend) version 1 of the round-k broadcast to everybody, then version 2 to group 2 while it is in round k, then the second instance's " +
 		"messages with the digest each recipient expects (no cross-group completers with different results); every equivocator and every 2-partition of the honest parties (n=3,4) for FROST keygen/sign with FIFO/LIFO/random schedules, " +
-		"one equivocator/partition per round for CMP keygen, sign, presign (refresh, all positions and fork mode on every round in the thorough tier); non-trivial = the two groups really received different, individually valid round-k broadcasts"
+		"one equivocator/partition per round for CMP keygen, sign, presign (refresh, all positions and fork mode on every round in the thorough tier); two delivery modes: the Message object handed over in memory, and `wire` " +
+		"(every envelope through Message.MarshalBinary, the bytes, UnmarshalBinary into a fresh Message, as a transport does: every FROST case, every CMP protocol and mode at least once; keys .../wire/...); non-trivial = the two groups really received different, individually valid round-k broadcasts"
 	defer func() { c06Sys.note(c, "C06 runs (fork / reencode / resend / directed)") }()
 	defer func() {
 		var ks []string
@@ -694,7 +715,7 @@ func runC06(c *ctx) {
 			} else if rpl.Mode == "resend" || rpl.Mode == "directed" || rpl.Mode == "directed-same" {
 				mode = c06Mode{Name: rpl.Mode}
 			}
-			return []c06Job{{mk(), rpl.Seed, party.ID(rpl.Cheater), g1, rpl.Round, last, sh.Bcast, rpl.Policy, mode, isCMP, sh}}
+			return []c06Job{{mk(), rpl.Seed, party.ID(rpl.Cheater), g1, rpl.Round, last, sh.Bcast, rpl.Policy, mode, isCMP, sh, rpl.Wire}}
 		}
 		for _, k := range ks {
 			for ei, E := range party.NewIDSlice(ids) {
@@ -729,12 +750,12 @@ func runC06(c *ctx) {
 						// fork mode: in the quick tier only where the two instances can differ (CMP: see c06ForkRounds)
 						forked := c.thorough() || !isCMP || c06ForkRounds(name)[k]
 						if forked {
-							jobs = append(jobs, c06Job{mk(), seed, E, g1, k, last, sh.Bcast, pn, c06Mode{Name: "fork"}, isCMP, sh})
+							jobs = append(jobs, c06Job{mk(), seed, E, g1, k, last, sh.Bcast, pn, c06Mode{Name: "fork"}, isCMP, sh, false})
 							// resend mode: wherever two instances can differ (CMP: the rounds of c06ForkRounds, in both tiers)
 							if !isCMP || c06ForkRounds(name)[k] {
-								jobs = append(jobs, c06Job{mk(), seed, E, g1, k, last, sh.Bcast, pn, c06Mode{Name: "resend"}, isCMP, sh})
+								jobs = append(jobs, c06Job{mk(), seed, E, g1, k, last, sh.Bcast, pn, c06Mode{Name: "resend"}, isCMP, sh, false})
 								// directed mode: per-recipient copies (To filled in) with different payloads (c06_directed.go)
-								jobs = append(jobs, c06Job{mk(), seed, E, g1, k, last, sh.Bcast, pn, c06Mode{Name: "directed"}, isCMP, sh})
+								jobs = append(jobs, c06Job{mk(), seed, E, g1, k, last, sh.Bcast, pn, c06Mode{Name: "directed"}, isCMP, sh, false})
 							}
 						}
 						// reencode mode: every round (quick tier, CMP: the rounds that fork mode does not cover); the variant rotates with the case
@@ -746,16 +767,49 @@ func runC06(c *ctx) {
 						}
 						// directed-same: per-recipient copies with identical payloads, every round (one schedule per partition in the quick tier)
 						if c.thorough() || pi == 0 {
-							jobs = append(jobs, c06Job{mk(), seed, E, g1, k, last, sh.Bcast, pn, c06Mode{Name: "directed-same"}, isCMP, sh})
+							jobs = append(jobs, c06Job{mk(), seed, E, g1, k, last, sh.Bcast, pn, c06Mode{Name: "directed-same"}, isCMP, sh, false})
 						}
 						for v := 0; v < nm; v++ {
-							jobs = append(jobs, c06Job{mk(), seed, E, g1, k, last, sh.Bcast, pn, reencModes[(ei+mask+k+pi+v)%len(reencModes)], isCMP, sh})
+							jobs = append(jobs, c06Job{mk(), seed, E, g1, k, last, sh.Bcast, pn, reencModes[(ei+mask+k+pi+v)%len(reencModes)], isCMP, sh, false})
 						}
 					}
 				}
 			}
 		}
-		return jobs
+		// delivery mode "wire" (every envelope through MarshalBinary -> bytes -> UnmarshalBinary into a fresh Message): the same
+		// cases again. FROST: every case. CMP (slow), thorough tier: every FIFO case again; quick tier: every mode in both delivery
+		// modes for every protocol: a mode with a single case gets that case again, of a mode with several cases (other rounds /
+		// equivocators) the last one is delivered through the wire format.
+		var wired []c06Job
+		again := func(j c06Job) {
+			j.sp, j.wire = mk(), true
+			wired = append(wired, j)
+		}
+		if isCMP && !c.thorough() {
+			byMode := map[string][]int{}
+			var order []string
+			for i, j := range jobs {
+				if byMode[j.mode.Name] == nil {
+					order = append(order, j.mode.Name)
+				}
+				byMode[j.mode.Name] = append(byMode[j.mode.Name], i)
+			}
+			for _, m := range order {
+				if l := byMode[m]; len(l) >= 2 {
+					jobs[l[len(l)-1]].wire = true
+				} else {
+					again(jobs[l[0]])
+				}
+			}
+		} else {
+			for _, j := range jobs {
+				if isCMP && j.pol != "fifo" {
+					continue
+				}
+				again(j)
+			}
+		}
+		return append(jobs, wired...)
 	}
 	report := func(outs []*c06Out) {
 		for _, o := range outs {
